@@ -6,6 +6,7 @@ import rules_guard
 import rules_orphan
 import rules_own
 import rules_ct
+import rules_sibling
 
 
 class Context:
@@ -54,9 +55,20 @@ STRUCTURAL = ("exact static rule check over all paths of the enumerated function
               "decides the named structural clauses (necessary conditions), not the behaviour itself")
 
 PROPS = {
+    "C05": {
+        "title": "Element-wise arithmetic, comparison, min/max and user-defined maps are pointwise",
+        "rules": [on_program(rules_guard.rule_div_zero), on_program(rules_guard.rule_sub_infinity), on_program(rules_sibling.rule_mirror_simplify)],
+        "explanation": STRUCTURAL + ". C05: partiality clause (every `/` and `%` on operand values is dominated by a zero test throwing DIVIDE_BY_ZERO; x - infinity throws SUBTRACT_INFINITY), "
+                       "mirror clause (for a commutative operation the two shortcut predicates simplifiesToFirstArg/SecondArg are mirror images), cross-forest clause (handles are used only with their own forest).",
+        "assumptions": ["pointwise values and the correctness of the shortcut predicates themselves are not decided", "only policies with commutes()==true are subject to the mirror law"],
+        "technique": "must-check dominance over clang CFGs; mirror-image comparison of twin predicates after operand renaming; forest-indexed handle typing",
+        "level_text": "exact static rule check over every instantiation of the arithmetic policies in operations/arith_*.cc; decides the partiality, mirror and cross-forest clauses, not the pointwise values",
+        "design_ref": "DESIGN.md §2.4, §2.2, §3 C05",
+        "level_note": "trusts clang 14 CFGs; the mirror comparison is textual on clang-printed conditions/returns after renaming the operand parameters by position",
+    },
     "C06": {
         "title": "Node lifetime: reference counts are exact, nothing dangles, nothing leaks",
-        "rules": [rules_own.rule_own, callers_for("C06")],
+        "rules": [rules_own.rule_own, callers_for("C06"), on_program(rules_sibling.rule_counter_width), on_program(rules_ct.rule_recycle_gate)],
         "explanation": STRUCTURAL + ". C06: link/unlink discipline — on every non-throwing path of every analysed function each node_handle reference is created, moved into exactly one owner and released exactly once; "
                        "nodes die and handles are recycled only from the last-unlink/last-uncache state machine.",
         "assumptions": ["values flowing through arrays/containers are untracked (possible miss, never an alarm)", "throwing paths are exempt (C06 excludes error paths)",
@@ -79,7 +91,8 @@ PROPS = {
     },
     "C13": {
         "title": "Variable reordering preserves every function and every held edge",
-        "rules": [callers_for("C13"), on_program(rules_layer.rule_cache_before_rewrite), on_program(rules_layer.rule_exchange_once)],
+        "rules": [callers_for("C13"), on_program(rules_layer.rule_cache_before_rewrite), on_program(rules_layer.rule_exchange_once),
+                  on_program(rules_sibling.rule_swap_loops), rules_own.rule_own_swap],
         "explanation": STRUCTURAL + ". C13: in-place rewrite/relabel/handle-swap primitives are reachable only from the adjacent-swap routines; every root of the reordering "
                        "call cone clears the compute tables first; a swap routine that relabels levels exchanges the variable order exactly once.",
         "assumptions": ["function preservation under the eight schedules is not decided", "swapAdjacentVariables called directly by a user (documented driver-only primitive) is outside the cone roots"],
